@@ -84,6 +84,15 @@ func (v *Verifier) addSweeps() {
 		v.coveredPred = nil
 	}
 	switch v.Prop {
+	case "C01", "C02", "C12":
+		// every writer of the SMS login keys preserves the session invariant (the parked
+		// login and the texted code belong to one account; C01/C12 since round 11: two
+		// modules sharing the parked-login key let one account's code finish another's login)
+		v.coveredPred = func(key string) bool { return v.hasClause(key, "sms_binding_inv") }
+		v.addEffectSweep("sms_keys_only_under_invariant", v.Prog.smsKeySites)
+		v.coveredPred = nil
+	}
+	switch v.Prop {
 	case "C20":
 		v.addFrameObligations()
 	case "C01":
@@ -93,9 +102,6 @@ func (v *Verifier) addSweeps() {
 		// second-factor step itself (OAuth2 and remember logins are not password logins; a
 		// registration creates the account it logs in)
 		v.uidWritersCarry("uid_writers_pass_second_factor", []string{"hijack_fired", "second_factor_guard"}, "remember", "register", "oauth2")
-		// every writer of the SMS login keys preserves the session invariant
-		v.coveredPred = func(key string) bool { return v.hasClause(key, "sms_binding_inv") }
-		v.addEffectSweep("sms_keys_only_under_invariant", v.Prog.smsKeySites)
 		// handlers that run between the password check and the second factor
 		v.coveredPred = func(string) bool { return false }
 		v.addEffectSweep("event_handlers_under_contract", v.eventRegSites(map[string][]string{
